@@ -419,6 +419,122 @@ theorem invB_step_u10 {progs : List (List Call)} {s s' : State} {t : Nat} {o : _
   · intro o' h hh _; simp only [histRem, hpc] at hh ⊢; first | exact hh | simp at hh
 
 
+theorem invB_step_s10 {progs : List (List Call)} {s s' : State} {t : Nat} {o : _} (hB : InvB progs s)
+    (hpc : (s.threads t).pc = .s10 o) (hs : stepT s t = some s') : InvB progs s' := by
+  obtain ⟨hcnt, htodo, hpcB⟩ := hB.loc t
+  simp only [stepT, hpc, Option.some.injEq] at hs; subst hs
+  by_cases hc : (s.obs o).fnNext = true
+  · simp only [hc, if_true]
+    refine invB_same hB t _ rfl rfl ?_ ⟨hcnt, htodo, by simp⟩ ?_ ?_ ?_
+    · intro o'; exact ⟨rfl, rfl, id⟩
+    · intro o'; simp [pos, hpc]
+    · simp [pushed, hpc]
+    · intro o' h hh _; simp only [histRem, hpc] at hh ⊢; first | exact hh | simp at hh
+  · have hc' : (s.obs o).fnNext = false := by simpa using hc
+    simp only [hc', Bool.false_eq_true, if_false]
+    refine invB_same hB t _ rfl rfl ?_ ⟨hcnt, htodo, by simp⟩ ?_ ?_ ?_
+    · intro o'; exact ⟨rfl, rfl, id⟩
+    · intro o'; simp [pos, hpc]
+    · simp [pushed, hpc]
+    · intro o' h hh _; simp only [histRem, hpc] at hh ⊢; first | exact hh | simp at hh
+
+theorem invB_step_e5 {progs : List (List Call)} {s s' : State} {t : Nat} {o : _} (hB : InvB progs s)
+    (hpc : (s.threads t).pc = .e5 o) (hs : stepT s t = some s') : InvB progs s' := by
+  obtain ⟨hcnt, htodo, hpcB⟩ := hB.loc t
+  simp only [stepT, hpc, Option.some.injEq] at hs; subst hs
+  by_cases hc : (s.obs o).subTaken = true
+  · simp only [hc, if_true]
+    refine invB_same hB t _ rfl rfl ?_ ⟨hcnt, htodo, by simp⟩ ?_ ?_ ?_
+    · intro o'; simp only [setObs]; by_cases ho : o' = o
+      · subst ho; simp
+      · simp [ho]
+    · intro o'; simp [pos, hpc]
+    · simp [pushed, hpc]
+    · intro o' h hh _; simp only [histRem, hpc] at hh ⊢; first | exact hh | simp at hh
+  · have hc' : (s.obs o).subTaken = false := by simpa using hc
+    simp only [hc', Bool.false_eq_true, if_false]
+    refine invB_same hB t _ rfl rfl ?_ ⟨hcnt, htodo, by simp⟩ ?_ ?_ ?_
+    · intro o'; simp only [setObs]; by_cases ho : o' = o
+      · subst ho; simp
+      · simp [ho]
+    · intro o'; simp [pos, hpc]
+    · simp [pushed, hpc]
+    · intro o' h hh _; simp only [histRem, hpc] at hh ⊢; first | exact hh | simp at hh
+
+theorem invB_step_e6 {progs : List (List Call)} {s s' : State} {t : Nat} {o : _} (hB : InvB progs s)
+    (hpc : (s.threads t).pc = .e6 o) (hs : stepT s t = some s') : InvB progs s' := by
+  obtain ⟨hcnt, htodo, hpcB⟩ := hB.loc t
+  simp only [stepT, hpc, Option.some.injEq] at hs; subst hs
+  refine invB_same hB t _ rfl rfl ?_ ⟨hcnt, htodo, by simp⟩ ?_ ?_ ?_
+  · intro o'; simp only [setObs]; by_cases ho : o' = o
+    · subst ho; simp
+    · simp [ho]
+  · intro o'; simp [pos, hpc]
+  · simp [pushed, hpc]
+  · intro o' h hh _; simp only [histRem, hpc] at hh ⊢; first | exact hh | simp at hh
+
+theorem invB_step_e7 {progs : List (List Call)} {s s' : State} {t : Nat} {o : _} (hB : InvB progs s)
+    (hpc : (s.threads t).pc = .e7 o) (hs : stepT s t = some s') : InvB progs s' := by
+  obtain ⟨hcnt, htodo, hpcB⟩ := hB.loc t
+  simp only [stepT, hpc, Option.some.injEq] at hs; subst hs
+  refine invB_same hB t _ rfl rfl ?_ ⟨hcnt, htodo, by simp⟩ ?_ ?_ ?_
+  · intro o'; exact ⟨rfl, rfl, id⟩
+  · intro o'; simp [pos, hpc]
+  · simp [pushed, hpc]
+  · intro o' h hh _; simp only [histRem, hpc] at hh ⊢; first | exact hh | simp at hh
+
+theorem invB_step_e8 {progs : List (List Call)} {s s' : State} {t : Nat} {o : _} (hB : InvB progs s)
+    (hpc : (s.threads t).pc = .e8 o) (hs : stepT s t = some s') : InvB progs s' := by
+  obtain ⟨hcnt, htodo, hpcB⟩ := hB.loc t
+  simp only [stepT, hpc, Option.some.injEq] at hs; subst hs
+  refine invB_same hB t _ rfl rfl ?_ ⟨hcnt, htodo, by simp⟩ ?_ ?_ ?_
+  · intro o'; exact ⟨rfl, rfl, id⟩
+  · intro o'; simp [pos, hpc]
+  · simp [pushed, hpc]
+  · intro o' h hh _; simp only [histRem, hpc] at hh ⊢; first | exact hh | simp at hh
+
+theorem invB_step_e9 {progs : List (List Call)} {s s' : State} {t : Nat} {o : _} (hB : InvB progs s)
+    (hpc : (s.threads t).pc = .e9 o) (hs : stepT s t = some s') : InvB progs s' := by
+  obtain ⟨hcnt, htodo, hpcB⟩ := hB.loc t
+  simp only [stepT, hpc, Option.some.injEq] at hs; subst hs
+  by_cases hc : (s.obs o).fTd = true
+  · simp only [hc, if_true]
+    refine invB_same hB t _ rfl rfl ?_ ⟨hcnt, htodo, by simp⟩ ?_ ?_ ?_
+    · intro o'; exact ⟨rfl, rfl, id⟩
+    · intro o'; simp [pos, hpc]
+    · simp [pushed, hpc]
+    · intro o' h hh _; simp only [histRem, hpc] at hh ⊢; first | exact hh | simp at hh
+  · have hc' : (s.obs o).fTd = false := by simpa using hc
+    simp only [hc', Bool.false_eq_true, if_false]
+    refine invB_same hB t _ rfl rfl ?_ ⟨hcnt, htodo, by simp⟩ ?_ ?_ ?_
+    · intro o'; exact ⟨rfl, rfl, id⟩
+    · intro o'; simp [pos, hpc]
+    · simp [pushed, hpc]
+    · intro o' h hh _; simp only [histRem, hpc] at hh ⊢; first | exact hh | simp at hh
+
+theorem invB_step_e9r {progs : List (List Call)} {s s' : State} {t : Nat} {o : _} (hB : InvB progs s)
+    (hpc : (s.threads t).pc = .e9r o) (hs : stepT s t = some s') : InvB progs s' := by
+  obtain ⟨hcnt, htodo, hpcB⟩ := hB.loc t
+  simp only [stepT, hpc, Option.some.injEq] at hs; subst hs
+  refine invB_same hB t _ rfl rfl ?_ ⟨hcnt, htodo, by simp⟩ ?_ ?_ ?_
+  · intro o'; exact ⟨rfl, rfl, id⟩
+  · intro o'; simp [pos, hpc]
+  · simp [pushed, hpc]
+  · intro o' h hh _; simp only [histRem, hpc] at hh ⊢; first | exact hh | simp at hh
+
+theorem invB_step_e9c {progs : List (List Call)} {s s' : State} {t : Nat} {o : _} (hB : InvB progs s)
+    (hpc : (s.threads t).pc = .e9c o) (hs : stepT s t = some s') : InvB progs s' := by
+  obtain ⟨hcnt, htodo, hpcB⟩ := hB.loc t
+  simp only [stepT, hpc, Option.some.injEq] at hs; subst hs
+  refine invB_same hB t _ rfl rfl ?_ ⟨hcnt, htodo, by simp⟩ ?_ ?_ ?_
+  · intro o'; simp only [setObs]; by_cases ho : o' = o
+    · subst ho; simp
+    · simp [ho]
+  · intro o'; simp [pos, hpc]
+  · simp [pushed, hpc]
+  · intro o' h hh _; simp only [histRem, hpc] at hh ⊢; first | exact hh | simp at hh
+
+
 
 theorem invB_step_idle {progs : List (List Call)} {s s' : State} {t : Nat} (hB : InvB progs s)
     (hpc : (s.threads t).pc = .idle) (hs : stepT s t = some s') : InvB progs s' := by
@@ -799,12 +915,12 @@ theorem invB_step_s9 {progs : List (List Call)} {s s' : State} {t : Nat} {o : Na
     · rename_i h; subst h; exact ⟨hcnt, htodo, by simp⟩
     · exact hB.loc t'
   · intro o' t'
-    have hpos : pos (setThr s t { (s.threads t) with pc := .idle } t') o' = ((s.threads t').cnt, false) := by
+    have hpos : pos (setThr s t { (s.threads t) with pc := .s10 o } t') o' = ((s.threads t').cnt, false) := by
       simp only [setThr]
       split
       · rename_i h; subst h; simp [pos]
       · exact (pos_of_not_inNext (hnn t') o').1
-    show Full _ _ _ (pos (setThr s t { (s.threads t) with pc := .idle } t') o')
+    show Full _ _ _ (pos (setThr s t { (s.threads t) with pc := .s10 o } t') o')
     rw [hpos]
     simp only [setObs]
     split
@@ -861,6 +977,14 @@ theorem invB_step {progs : List (List Call)} {s s' : State} {t : Nat} (hq : s.qu
   | s8 o h => exact invB_step_s8 hB hpc hs
   | s8d o x h => exact invB_step_s8d hA hB hpc hs
   | s9 o => exact invB_step_s9 hq hB hpc hs
+  | s10 o => exact invB_step_s10 hB hpc hs
+  | e5 o => exact invB_step_e5 hB hpc hs
+  | e6 o => exact invB_step_e6 hB hpc hs
+  | e7 o => exact invB_step_e7 hB hpc hs
+  | e8 o => exact invB_step_e8 hB hpc hs
+  | e9 o => exact invB_step_e9 hB hpc hs
+  | e9r o => exact invB_step_e9r hB hpc hs
+  | e9c o => exact invB_step_e9c hB hpc hs
   | u0 o => exact invB_step_u0 hB hpc hs
   | u1 o => exact invB_step_u1 hB hpc hs
   | u2 o => exact invB_step_u2 hB hpc hs
